@@ -25,6 +25,26 @@ CHECKS = {
          "Generated call graphs (exec/call/syscall against generated kernels/dynexec/dyncall, locals, caller) doing element/word/stream/pipe/local loads and stores over a colliding address pool are compared with the per-context reference model on the final stack, the final memory of every context and failures; from the trace: every memory read returns the last write to (ctx, addr) or zeros, element stores change only element 0, after every CALL/SYSCALL..END ctx/fmp/fn-hash/depth/overflow-address are restored, callee starts at depth 16 in a fresh (or the root) context with the documented locals base; enumerated: depth != 16 on return, syscall target not in kernel, caller outside syscall, addresses >= 2^32 incl. both addresses of mem_stream/adv_pipe. Both build flavours.",
          "Trusted: reference model from execution_contexts.md / io_operations.md; locals are compared only after being written in the same frame activation; processor `internals` feature for reading final memory. Known finding: caller after dyncall (known_findings.json).",
          "DESIGN.md sec. 3 C07"),
+ "C08": ("exploration",
+         "exhaustive enumeration of push/non-push patterns + property-based testing (proptest) with a validity-predicate oracle for the documented batching rules and an independent RPO recomputation of span and control-block hashes; metamorphic hash invariance/sensitivity",
+         "Operation sequences (all push/non-push patterns up to length 13 quick / 18 thorough over three palettes, all (k non-push, j push, tail) boundary shapes, random sequences up to 700 ops) are turned into spans and the batches are checked against the documented rules (<= 8 groups per batch, <= 9 ops per group, immediates in following groups of the same batch, immediate-carrying op never last in its group, groups decode back to the sequence up to NOOPs, op lists agree with groups); span hash = miden-crypto hash_elements over the batches; for assembled generated programs every block hash (join/split/loop/call/syscall/dyn with the opcode as domain) and every code-block-table body is recomputed bottom-up through public accessors; the hash is unchanged by comments, whitespace, procedure renaming, debug mode and decorators, changes with an inserted operation or a changed immediate, and equals the hash recorded by the execution trace. The documented opcode table is compared with Operation::op_code for all 89 operations.",
+         "Trusted: miden-crypto Rpo256 (registry), the documented opcode table transcribed into tracekit::opc. Batching is checked as a validity predicate (the docs give rules, not the greedy algorithm).",
+         "DESIGN.md sec. 3 C08"),
+ "C13": ("exploration",
+         "property-based testing (proptest) with an independent MAST walker as reference: prescribed operation-per-clock stream vs the opcode columns of the trace",
+         "For generated programs (all block kinds, nesting <= 4, loops with 0..n iterations, calls/syscalls/dyn) and spans of every length 1..200 with eight immediate placements, an independent walker over Program::root()/cb_table prescribes the operation of every clock cycle from the decisions read off the stack column (block starts, span ops with NOOPs only at the documented alignment places, RESPAN, END, REPEAT, HALT padding) and this is compared for equality with the trace; END rows carry their block's address, group counter 0 at span ends, in_span only on span operations, last decoder row = program hash, cycles = rows walked.",
+         "Trusted: op batches of core (validated against the documented rules by C08), documented opcode table.",
+         "DESIGN.md sec. 3 C13, Appendix C"),
+ "C14": ("exploration",
+         "metamorphic property testing (proptest): re-execution / hints / tracing / debug mode / decorator removal must give the identical main trace; VmStateIterator under generated and exhaustively enumerated next/back scripts vs state reconstructed from the trace",
+         "Generated programs with decorators: identical 70-column main segment and outputs on re-run, under another expected-cycles hint, with tracing on, when assembled in debug mode and with debug/emit/trace decorators removed; every VmState returned by a forward sweep, by generated stepping scripts and by all 254 next/back scripts of length <= 7 on a fixed program is compared with the trace at that clock (top 16, depth, overflow items reconstructed from the stack columns, fmp, ctx, op, per-context memory from memory-chiplet rows with clk < t); None only at the ends, no panic; every CLK row pushes the clk column. Both build flavours.",
+         "Known finding (listed): the iterator's items below position 15 come from a broken overflow history; matched only on the exact emulated pattern. Trusted: trace column layout from the design docs.",
+         "DESIGN.md sec. 3 C14"),
+ "C15": ("exploration",
+         "property-based testing (proptest) with the unlimited run as reference; generated non-terminating programs under a watchdog; enumeration of the option constructor around its boundaries",
+         "Terminating generated programs are re-run with limits N-3..N+3, 64, N/2, 2N, N+1000, u32::MAX: Ok iff N <= limit with identical outputs, otherwise CycleLimitExceeded(limit), never a host callback beyond the limit; generated non-terminating loops (nested loops, growing stack and memory, events per iteration) with limits 64..2^16 must stop with that error (60 s watchdog vs milliseconds expected); ExecutionOptions::new enumerated over 14x12 (max, expected) pairs: refused iff max < 64 or max < expected; the limit also applies through prove().",
+         "Expected-cycle values above 2^16+1 are outside the enumerated domain (no u32 power of two above 2^31; allocation size).",
+         "DESIGN.md sec. 3 C15"),
  "C12": ("exploration",
          "property-based testing (proptest) over generated programs: terminal-value oracle for every auxiliary running-product/sum column under generated challenges",
          "Programs biased to chiplet traffic (hperm/hash/hmerge, u32 bitwise, every memory instruction incl. mem_stream/adv_pipe, multi-batch spans, every control block, call/syscall with kernels, dynexec/dyncall) are executed and the auxiliary segment is built for 16 generated challenges; block stack (p1), block hash (p2, initial value = program-hash row), op group (p3), chiplets bus and chiplets virtual table (= product of kernel procedure rows) must start and end at their specified values; the stack overflow table and b_range terminals are boundary assertions checked in C03.",
